@@ -237,6 +237,16 @@ class PandasModelBase(
         res = a.combine_first(b)
         return res
 
+    def _ignoring_missing(self, f, a, b):
+        """
+        f(a, b) for numpy.fmax / numpy.fmin: a nullable (masked) column carries <NA> through the
+        ufunc, where a missing argument is to be ignored.
+        """
+        res = f(a, b)
+        if isinstance(res, self.pd.Series) and res.isna().any():
+            res = res.fillna(self._coalesce(a, b))
+        return res
+
     def _map_v(self, a, value_map, default_value=None):
         """Map values to values."""
         if len(value_map) > 0:
@@ -346,6 +356,8 @@ class PandasModelBase(
             "is_in": _type_safe_is_in,
             "concat": lambda a, b: self._concat_expr(a, b),
             "coalesce": lambda a, b: self._coalesce(a, b),  # assuming Pandas series
+            "fmax": lambda a, b: self._ignoring_missing(numpy.fmax, a, b),
+            "fmin": lambda a, b: self._ignoring_missing(numpy.fmin, a, b),
             "connected_components": lambda a, b: data_algebra.connected_components.connected_components(
                 a, b
             ),
